@@ -777,6 +777,18 @@ func builtinKeys(i *Interpreter, args []Expr, env *Environment) (interface{}, er
 	return keys, nil
 }
 
+// sortedKeys returns the keys of obj in ascending order. Go iterates a map in
+// a different order on every run; walking objects in sorted key order makes a
+// for loop over an object do the same thing every time.
+func sortedKeys(obj map[string]interface{}) []string {
+	keys := make([]string, 0, len(obj))
+	for k := range obj {
+		keys = append(keys, k)
+	}
+	sort.Strings(keys)
+	return keys
+}
+
 // callCallable invokes a callable (LambdaClosure or Function) with the given arguments.
 func (i *Interpreter) callCallable(fn interface{}, args []interface{}) (interface{}, error) {
 	switch f := fn.(type) {
